@@ -364,4 +364,93 @@ Section Spec.
         rewrite <- (IH (n - 2 ^ e)) by (assumption || lia).
         cbn. rewrite path_bu_single. reflexivity.
   Qed.
+
+  (** * The old tree inside the levels of the new one (consistency) *)
+
+  (** number of trailing one bits of i *)
+  Fixpoint tones (f i : nat) : nat :=
+    match f with
+    | O => 0
+    | S f' => if Nat.odd i then S (tones f' (i / 2)) else 0
+    end.
+
+  Lemma tones_decomp : forall f i, i = (i / 2 ^ tones f i) * 2 ^ tones f i + (2 ^ tones f i - 1).
+  Proof.
+    induction f as [|f IH]; intro i; cbn [tones].
+    - change (2 ^ 0) with 1. rewrite Nat.div_1_r. lia.
+    - odd_cases i.
+      + rewrite Nat.pow_succ_r'. pose proof (IH (i / 2)) as E.
+        pose proof (pow2_pos (tones f (i / 2))) as Hp.
+        rewrite <- Nat.div_div by lia.
+        set (q := i / 2 / 2 ^ tones f (i / 2)) in *. nia.
+      + change (2 ^ 0) with 1. rewrite Nat.div_1_r. lia.
+  Qed.
+
+  Lemma tones_even : forall f i, i < 2 ^ f -> Nat.odd (i / 2 ^ tones f i) = false.
+  Proof.
+    induction f as [|f IH]; intros i H; cbn [tones].
+    - simpl in H. assert (i = 0) by lia. subst. reflexivity.
+    - destruct (Nat.odd i) eqn:Ho.
+      + rewrite Nat.pow_succ_r'. rewrite <- Nat.div_div by (try pose proof (pow2_pos (tones f (i / 2))); lia).
+        apply IH. rewrite Nat.pow_succ_r' in H. lia.
+      + change (2 ^ 0) with 1. rewrite Nat.div_1_r. exact Ho.
+  Qed.
+
+  Lemma up_firstn_even : forall L k, k mod 2 = 0 -> up (firstn k L) = firstn (k / 2) (up L).
+  Proof.
+    induction L as [| a | a b r IH] using list_pair_ind; intros k Hk.
+    - rewrite !firstn_nil. reflexivity.
+    - destruct k as [|[|k]]; try reflexivity; simpl in Hk; try discriminate.
+      replace (S (S k) / 2) with (S (k / 2)) by lia. cbn. rewrite firstn_nil. reflexivity.
+    - destruct k as [|[|k]]; try reflexivity; [simpl in Hk; discriminate|].
+      replace (S (S k) / 2) with (S (k / 2)) by lia.
+      cbn [firstn up]. rewrite IH by lia. reflexivity.
+  Qed.
+
+  (** hash of the last node of the old tree, [f] levels above a level where the old tree is
+      [firstn i L ++ [x]] *)
+  Fixpoint old_x (d : T) (f i : nat) (x : T) (L : list T) : T :=
+    match f with
+    | O => x
+    | S f' => if Nat.odd i then old_x d f' (i / 2) (hc (nth (i - 1) L d) x) (up L)
+              else old_x d f' (i / 2) x (up L)
+    end.
+
+  Lemma firstn_snoc_nth d : forall (L : list T) k, k < length L -> firstn (S k) L = firstn k L ++ [nth k L d].
+  Proof.
+    induction L as [|a L IH]; intros k H; [simpl in H; lia|].
+    destruct k as [|k]; [reflexivity|]. cbn [firstn nth app]. rewrite <- IH by (simpl in H; lia). reflexivity.
+  Qed.
+
+  Lemma old_levels d : forall f L i x, i < length L ->
+    ups f (firstn i L ++ [x]) = firstn (i / 2 ^ f) (ups f L) ++ [old_x d f i x L].
+  Proof.
+    induction f as [|f IH]; intros L i x Hi.
+    - cbn [ups old_x]. change (2 ^ 0) with 1. rewrite Nat.div_1_r. reflexivity.
+    - cbn [ups old_x]. rewrite Nat.pow_succ_r'.
+      rewrite <- Nat.div_div by (try pose proof (pow2_pos f); lia).
+      assert (Hi2 : i / 2 < length (up L)) by (rewrite up_length; lia).
+      odd_cases i.
+      + replace i with (S (i - 1)) at 1 by lia.
+        rewrite (firstn_snoc_nth d) by lia. rewrite <- app_assoc. cbn [app].
+        rewrite up_app by (rewrite firstn_length; lia).
+        rewrite up_firstn_even by lia. cbn [up].
+        replace ((i - 1) / 2) with (i / 2) by lia.
+        apply IH. exact Hi2.
+      + rewrite up_app by (rewrite firstn_length; lia).
+        rewrite up_firstn_even by lia. cbn [up].
+        apply IH. exact Hi2.
+  Qed.
+
+  Lemma old_x_mth d f L i : i < length L -> i < 2 ^ f ->
+    old_x d f i (nth i L d) L = mth (firstn (S i) L).
+  Proof.
+    intros Hi Hf.
+    pose proof (old_levels d f L i (nth i L d) Hi) as E.
+    rewrite <- (firstn_snoc_nth d) in E by exact Hi.
+    rewrite ups_mth in E.
+    - rewrite (Nat.div_small i (2 ^ f)) in E by exact Hf. simpl in E. inversion E. reflexivity.
+    - destruct L; simpl in *; [lia|congruence].
+    - rewrite firstn_length. lia.
+  Qed.
 End Spec.
